@@ -1101,7 +1101,7 @@ func (t *tr) call(e *ast.CallExpr) string {
 			return "?"
 		}
 		for _, v := range pi.views {
-			if out, ok := t.viewThroughAll(ab, v); ok {
+			if out, ok := t.viewThroughAll(ab, v, callee.spec.dir); ok {
 				args = append(args, out)
 				continue
 			}
